@@ -2,6 +2,7 @@ package analysis
 
 import (
 	"fmt"
+	"grog/internal/verifhook"
 	"path/filepath"
 	"sort"
 	"strings"
@@ -170,6 +171,7 @@ func getAncestorSet(graph *dag.DirectedTargetGraph, node model.BuildNode, cache 
 
 	for len(stack) > 0 {
 		ancestor := stack[len(stack)-1]
+		verifhook.Count("conflict.anc.visit")
 		stack = stack[:len(stack)-1]
 
 		if _, seen := set[ancestor.GetLabel()]; seen {
